@@ -54,7 +54,8 @@ LoadFields(ts, fa, i, j, vs) ==
         LET k == kj[m]  a == fa[k] IN
         IF a.to < j THEN Unit                                   \* removed in the loading program
         ELSE IF Born(a) > i THEN                                 \* added after the file was written
-             (IF a.df = "default" THEN DefaultOf(DefAt(ts[k], j)) ELSE WitnessOf(DefAt(ts[k], j)))
+             \* (of the type the field has in the loading program: a field converted later still has its old type at j)
+             (IF a.df = "default" THEN DefaultOf(FieldAt(ts[k], a, j)[1]) ELSE WitnessOf(FieldAt(ts[k], a, j)[1]))
         ELSE IF HasAs(a) /\ i <= a.at /\ j > a.at THEN Conv(vs[PosAt(fa, k, i)], ts[k])   \* converted in between
         ELSE IF HasAs(a) /\ j <= a.at THEN Load(a.asty, i, j, vs[PosAt(fa, k, i)])
         ELSE Load(ts[k], i, j, vs[PosAt(fa, k, i)])]
